@@ -429,7 +429,7 @@ pub fn run_datetime_machine(rep: &mut Report, depth: u8, kind: DtMenu) {
         acc.sample(json!({"op": "E2 machine", "inits": dt_inits(kind).len(), "menu": menu.len(), "depth": depth, "unique_states": unique, "transitions": n_trans}));
     }
     // determinism self-check: a second, single-threaded run must visit the same number of unique states
-    if rep.ctx.thorough || unique < 150_000 {
+    if (rep.ctx.thorough && unique < 3_000_000) || unique < 150_000 {
         let before = transitions.load(Ordering::Relaxed);
         let c2 = make().checker().threads(1).spawn_bfs().join();
         if acc.classes.is_empty() && c2.unique_state_count() as u64 != unique {
@@ -722,7 +722,7 @@ pub fn run_time_machine(rep: &mut Report, depth: u8) {
         acc.violation(&last_op, &format!("machine-path-of-{}", actions.len()), json!({"kind": "machine", "init": [init.nanos.to_string(), init.off], "ops": ops}), "canonical value agreeing with modular arithmetic at every step".into(), states.last().unwrap().bad.clone().unwrap_or_default());
     } else {
         acc.sample(json!({"op": "E2 Time machine", "inits": inits.len(), "menu": menu.len(), "depth": depth, "unique_states": unique, "transitions": n_trans}));
-        if rep.ctx.thorough || unique < 150_000 {
+        if (rep.ctx.thorough && unique < 3_000_000) || unique < 150_000 {
             let c2 = make().checker().threads(1).spawn_bfs().join();
             if c2.unique_state_count() as u64 != unique {
                 rep.machinery_errors.push(format!("{}: unique state count differs between runs ({} vs {})", name, unique, c2.unique_state_count()));
